@@ -64,6 +64,14 @@ def run(chk):
             for ft, view in (("f64", "u64"), ("f64", "float"), ("f64", "u32"), ("f32", "float"), ("f32", "u64")):
                 cells.append(dict(kind="dens_%s_%s_%s" % (alg, ft, view), m=m, groups=groups, shape=name, oracle=j,
                                   trials=trials_for(m, n, quick)))
+    # one sketcher object reused with reinit between the two sets
+    for name, m, groups, j in shapes():
+        if name in ("sparse-nested-m256", "half-full-m64", "one-vs-two-m16", "three-items-m3", "two-bins"):
+            n = sum(g[0] for g in groups)
+            for alg in ("opt", "rev"):
+                for ft, view in (("f64", "u64"), ("f32", "float")):
+                    cells.append(dict(kind="dens_%s_%s_%s" % (alg, ft, view), m=m, groups=groups, shape=name + "+reuse", oracle=j,
+                                      reuse=True, trials=trials_for(m, n, quick)))
     res = freqfam.run_pairs(chk, cells, "pairs")
     freqfam.judge_pairs(chk, cells, res, "pairs", check_mse=False)
     chk.cov["pair_cells"] = len(cells)
